@@ -1,0 +1,35 @@
+//go:build verif
+
+package verifexport
+
+import (
+	"context"
+
+	icrypto "github.com/nspcc-dev/neofs-node/internal/crypto"
+	neofscrypto "github.com/nspcc-dev/neofs-sdk-go/crypto"
+	protosession "github.com/nspcc-dev/neofs-sdk-go/proto/session"
+	"github.com/nspcc-dev/neofs-sdk-go/user"
+)
+
+// N3ScriptRunner is an alias of the internal N3 script runner interface.
+type N3ScriptRunner = icrypto.N3ScriptRunner
+
+// VerifyRequestSignatures is [icrypto.VerifyRequestSignatures].
+func VerifyRequestSignatures[B neofscrypto.ProtoMessage](req neofscrypto.SignedRequest[B]) error {
+	return icrypto.VerifyRequestSignatures(req)
+}
+
+// VerifyRequestSignaturesWithContext is [icrypto.VerifyRequestSignaturesWithContext].
+func VerifyRequestSignaturesWithContext[B neofscrypto.ProtoMessage](ctx context.Context, req neofscrypto.SignedRequest[B]) error {
+	return icrypto.VerifyRequestSignaturesWithContext(ctx, req)
+}
+
+// VerifyRequestSignaturesN3 is [icrypto.VerifyRequestSignaturesN3].
+func VerifyRequestSignaturesN3[B neofscrypto.ProtoMessage](ctx context.Context, req neofscrypto.SignedRequest[B], fsChain N3ScriptRunner) error {
+	return icrypto.VerifyRequestSignaturesN3(ctx, req, fsChain)
+}
+
+// GetRequestAuthor is [icrypto.GetRequestAuthor].
+func GetRequestAuthor(vh *protosession.RequestVerificationHeader) (user.ID, []byte, error) {
+	return icrypto.GetRequestAuthor(vh)
+}
